@@ -66,6 +66,7 @@ class World:
         self.rmap: Dict[str, int] = {}
         self.pmap: Dict[str, int] = {}
         self.nclauses: Dict[str, int] = {"d1": 0, "d2": 0, "d3": 0}
+        self.nlist: Dict[str, int] = {"d1": 0, "d2": 0, "d3": 0}
 
     # ---------------------------------------------------------------- hedgers
     def make_hedger(self):
@@ -177,6 +178,13 @@ class World:
             dv.add_clause(f"clause{k}", (lambda dd, p: p * 2 + 1) if k == 0 else (lambda dd, p: p.clamp(max=1.25)))
             self.nclauses[d] = k + 1
             return None
+        if op == "Relist":                 # delist() and list() again with another pricer: the listed price changes, nothing else
+            k = self.nlist[d]
+            cost = dv.cost
+            dv.delist()
+            dv.list((lambda dd: dd.ul().spot * 0.25 + 0.3) if k == 0 else (lambda dd: (dd.ul().spot - 0.5).abs() + 0.2), cost=cost)
+            self.nlist[d] = k + 1
+            return None
         if op == "Fit":
             params = self.params_of(h)
             if not params:
@@ -259,6 +267,9 @@ def replay_history(ctx: Ctx, hist: List[Dict[str, Any]], kind: str, seed: int) -
         if op == "AddClause" and after != before:
             ctx.violation("purity:AddClause", "add_clause changed a simulated buffer", detail)
             return
+        if op == "Relist" and after != before:
+            ctx.violation("purity:Relist", "re-listing a derivative changed a simulated buffer", detail)
+            return
         if op != "Fit" and pafter != pbefore:
             ctx.violation(f"params-changed:{op}", f"{op} changed model parameters (only fit() may)", detail)
             return
@@ -305,9 +316,13 @@ def record_sessions(seed: int, n_traces: int, length: int) -> List[Dict[str, Any
                 op = rng.choice(["Simulate", "ComputeLoss", "Price"])
             else:
                 op = rng.choice(["Simulate", "Payoff", "Features", "ListedSpot", "ComputeHedge", "ComputeHedge", "ComputePortfolio", "ComputePL", "ComputePL", "ComputeLoss", "Price",
-                                 "AddClause", "Fit"])
+                                 "AddClause", "Fit", "Relist"])
             if op == "AddClause" and w.nclauses[d] >= 2:
                 op = "Payoff"
+            if op == "Relist" and w.nlist[d] >= 2:
+                op = "ListedSpot"
+            if op == "Fit" and kind == "shared-module-prev":
+                op = "ComputePL"             # the two hedgers of this kind share trainable parameters BY CONSTRUCTION: fit() of one is fit() of both
             h = rng.choice(["h1", "h1", "h2"]) if op.startswith("Compute") or op in ("Price", "Fit") else "-"
             n = rng.choice([2, 3]) if op in ("Simulate", "ComputeLoss", "Price", "Fit") else 0
             pv0 = w.pversions()
@@ -321,8 +336,9 @@ def record_sessions(seed: int, n_traces: int, length: int) -> List[Dict[str, Any
             if op == "Fit" and w.pversions()[h] == pv0[h]:
                 break                       # a step that left the parameters bit-identical (zero gradient): end this trace here
             if op in ("Simulate", "ComputeLoss", "Price", "Fit"):
-                events.append({"op": op, "h": h, "d": d, "n": n, "ver": w.versions(), "npaths": w.npaths(), "cv": w.nclauses[d], "pvs": w.pversions(),
-                           "res": 0 if (res is None or op in ("ComputeLoss", "Price")) else w.rid(res)})
+                simulated.add(ul)
+            events.append({"op": op, "h": h, "d": d, "n": n, "ver": w.versions(), "npaths": w.npaths(), "cv": w.nclauses[d], "lv": w.nlist[d], "pvs": w.pversions(),
+                           "res": 0 if (res is None or op in ("ComputeLoss", "Price", "Fit", "AddClause", "Relist")) else w.rid(res)})
         traces.append({"kind": kind, "events": events})
     return traces
 
@@ -446,7 +462,7 @@ def repository_test_purity(ctx: Ctx) -> None:
 def check(ctx: Ctx) -> None:
     warnings.filterwarnings("ignore")
     ex = ctx.tlc("MC_Session", "MC_Session_q_d3.cfg" if ctx.tier == "quick" else "MC_Session_t_d4.cfg", workers=8)
-    for a in ("Simulate", "Read", "Compute", "SimCompute", "AddClause", "Fit"):
+    for a in ("Simulate", "Read", "Compute", "SimCompute", "AddClause", "Fit", "Relist"):
         if ex.actions.get(a, [0, 0])[1] == 0:
             raise MachineryError(f"Session.tla: action {a} never taken")
     sim = ctx.tlc("MC_Session", "MC_Session_sim.cfg", workers=4, simulate=f"num={150 if ctx.tier == 'quick' else 1500}", depth=10, seed=ctx.seed + 5)
@@ -496,6 +512,13 @@ def check(ctx: Ctx) -> None:
     ctx.sample({"interleaving": [[e["op"], e["h"], e["d"], e["n"]] for e in sim.records[0]["hist"]]})
     # ---- code -> spec
     traces = record_sessions(ctx.seed + 11, 60 if ctx.tier == "quick" else 600, 14)
+    mix: Dict[str, int] = {}
+    for t_ in traces:
+        for e_ in t_["events"]:
+            mix[e_["op"]] = mix.get(e_["op"], 0) + 1
+    ctx.sections["recorded_session_operations"] = mix
+    if sum(1 for k_ in mix if k_ in READ_ONLY) < 4 or not mix.get("Fit") or not mix.get("AddClause") or not mix.get("Relist"):
+        raise MachineryError(f"recorded sessions do not exercise the session machine: {mix}")
     for i, reached, need in validate(ctx, traces, "recorded"):
         ctx.traces_validated += 1
         if reached != need:
@@ -530,7 +553,7 @@ def check(ctx: Ctx) -> None:
         seen_keys: Dict[str, int] = {}
         for i, e in enumerate(cand["events"]):
             if e["op"] in READ_ONLY:
-                k2 = json.dumps([e["op"], e["d"], e["ver"], e["cv"], e["pv"]])
+                k2 = json.dumps([e["op"], e["d"], e["ver"], e["cv"], e["lv"], e["pv"]])
                 if k2 in seen_keys:
                     e["res"] += 77                                    # same key, different result
                     bad_hist, line2 = cand, i
